@@ -101,8 +101,11 @@ void accuracyCase(long kk, uint64_t seed, bool th, Result& res) {
 void periodicCase(long kk, uint64_t seed, bool th, Result& res) {
     using namespace TbfAlgorithmUtils;
     vh::Rng r(vh::mix(seed ^ 0xC04B, uint64_t(kk) * 64 + P * 2 + VH_REALF));
-    const long H = r.range(2, th ? 5 : 4);
-    const long extra = r.range(-1, th ? 2 : 1);
+    // one periodic case in four: a single-leaf tree with extraLevels -1 (the 27 nearest images through P2P alone; the leaf is its own
+    // periodic neighbour, so the mutual routine receives the same result arrays for both sides)
+    const bool singleLeaf = ((kk / 5) % 4 == 1);
+    const long H = singleLeaf ? 1 : r.range(2, th ? 5 : 4);
+    const long extra = singleLeaf ? -1 : r.range(-1, th ? 2 : 1);
     auto geo = tbx::genGeo<Real, 3>(r, H, true, int(r.below(3)));
     const Cfg cfg(H, geo.width, geo.center);
     const long N = r.range(30, th ? 200 : 90);
